@@ -159,6 +159,13 @@ def confining_fns(db):
 REQUEST_ADT_PREFIX = ("s3s::dto::", "s3s::protocol::")
 
 
+def _writer_adts(db):
+    """the temp-file writer and, where the temp file lives in a type of its own, its guard: their path fields are confined by construction
+    (checked at the construction sites, C17.R1 `FileWriter.*`)"""
+    tg = temp_guard(db)
+    return ("FileWriter", tg[0]) if tg else ("FileWriter",)
+
+
 def classify_path(db, body, op, at, conf):
     """slice a path operand back to its sources, stopping at confining calls.
     returns dict: conf_calls, root_field, filewriter_fields, request_fields, params, other_calls"""
@@ -177,15 +184,40 @@ def classify_path(db, body, op, at, conf):
                     if "rv" in w and w["rv"]["ops"]:
                         s2 = flow.backward(ab, w["rv"]["ops"][0], at=w["bi"])
                         for a, f in s2.fields_full:
-                            if a.startswith("s3s_fs::") and a.endswith("::FileWriter"):
+                            if a.startswith("s3s_fs::") and a.rsplit("::", 1)[-1] in _writer_adts(db):
                                 res["fw"].add(f)
     for a, f in sl.fields_full:
         sa = a.rsplit("::", 1)[-1]
         if a == FS and f == "root":
             res["root"] = True
-        elif a.startswith("s3s_fs::") and sa == "FileWriter":
+        elif a.startswith("s3s_fs::") and sa in _writer_adts(db):
             res["fw"].add(f)
         elif a.startswith(REQUEST_ADT_PREFIX):
             res["request"].add((sa, f))
     res["params"] = [(l, pr) for l, pr in sl.params]
+    return res
+
+
+_GUARD = {}
+
+
+def temp_guard(db):
+    """the temp-file guard of the backend, by role: (short name of the ADT whose Drop impl removes a file, the field that holds that file's
+    path, [Drop bodies]).  On the pinned tree this is FileWriter.tmp_path; a refactor may move the temp file into a type of its own."""
+    if db.dir in _GUARD:
+        return _GUARD[db.dir]
+    res = None
+    for b in fs_bodies(db):
+        if b.impl_trait != "core::ops::drop::Drop":
+            continue
+        for bi, t in b.calls():
+            if short(callee_def(t)) != "remove_file" or not t["args"]:
+                continue
+            sl = flow.backward(b, t["args"][0], at=bi)
+            own = b.impl_self.split("<")[0].rsplit("::", 1)[-1]
+            fs_ = sorted(f for a, f in sl.fields if a == own)
+            if len(fs_) == 1:
+                res = (own, fs_[0], [x for x in fs_bodies(db) if x.impl_trait == "core::ops::drop::Drop" and x.impl_self == b.impl_self])
+    _GUARD.clear()
+    _GUARD[db.dir] = res
     return res
